@@ -144,7 +144,7 @@ func c09Setup(c *ev.Ctx, fs *memfs.FS) (*sess, bool) {
 
 func runC09(c *ev.Ctx) {
 	r := c.Rand("c09")
-	strs := hostileStrings(r, c.Sz(40, 30000))
+	strs := hostileStrings(r, c.Sz(400, 30000))
 	ps := c09Positions()
 	idx := 0
 	for _, pos := range ps {
